@@ -376,9 +376,14 @@ class StmtMixin(ExecBase):
             self.list_write_check(st, o, line)
             list_store(st, o, it, v)
             return k(st)
-        if isinstance(o, VObj) and isinstance(node, (ast.Assign, ast.AugAssign)):
-            # self.__dict__[name] = value   (raw attribute store inside __setattr__)
-            pass
+        if isinstance(o, VMap) and isinstance(i, VStr):
+            if isinstance(v, (VDict,)) and not v.d or (isinstance(v, VList) and False):
+                map_new_row(st, o, i.t)
+                return k(st)
+            raise Unsupported("assignment of a non-empty row to a record map")
+        if isinstance(o, VRow) and isinstance(i, VStr) and i.s is not None:
+            map_set(st, o, i.s, v)
+            return k(st)
         if isinstance(o, VFunc) and o.kind == "rawdict":
             if not (isinstance(i, VStr) and i.s is not None):
                 raise Unsupported("__dict__ store with a symbolic key")
